@@ -30,10 +30,9 @@ type Sources struct {
 	cpos       int               // A temporary cursor position used when searching/moving around.
 
 	// Line changes history
-	skip    bool                            // Skip saving the current line state.
-	undoing bool                            // The last command executed was an undo.
-	last    inputrc.Bind                    // The last command being ran.
-	lines   map[string]map[int]*lineHistory // Each line in each history source has its own buffer history.
+	skip  bool                            // Skip saving the current line state.
+	last  inputrc.Bind                    // The last command being ran.
+	lines map[string]map[int]*lineHistory // Each line in each history source has its own buffer history.
 
 	// Lines accepted
 	infer      bool      // If the last command ran needs to infer the history line.
@@ -209,7 +208,7 @@ func (h *Sources) Walk(pos int) {
 	// When there is an available change history for
 	// this line, use it instead of the fetched line.
 	if hist := h.getLineHistory(); hist != nil && len(hist.items) > 0 {
-		line = hist.items[len(hist.items)-1].line
+		line = hist.shown().line
 	} else if line, err = history.GetLine(history.Len() - h.hpos); err != nil {
 		h.hint.Set(color.FgRed + "history error: " + err.Error())
 		return
@@ -402,8 +401,7 @@ func (h *Sources) InsertMatch(line *core.Line, cur *core.Cursor, usePos, fwd, re
 	// (down to the current input line), reinstore the main line buffer.
 	if !found {
 		if fwd {
-			h.hpos = -1
-			h.Undo()
+			h.restoreLineBuffer()
 		}
 
 		return
@@ -663,7 +661,7 @@ func (h *Sources) getLine(line *core.Line, cur *core.Cursor) (*core.Line, *core.
 			return line, cur
 		}
 
-		undo := lh.items[len(lh.items)-1]
+		undo := lh.shown()
 		line.Set([]rune(undo.line)...)
 		cur.Set(undo.pos)
 	}
